@@ -428,9 +428,7 @@ Definition run_rec : obs -> Prop := stoch_rec (fun x => In x (all_events tb) /\ 
 
 Lemma tranche_run_rec : forall t o, tranche_rec tb t o -> run_rec o.
 Proof.
-  intros t o. destruct o; simpl; try tauto.
-  - intros (H & _). right; exact H.
-  - intros (_ & j & ev & H1 & H2 & H3). right. exists j, ev. repeat split; assumption.
+  intros t o. destruct o; simpl; tauto.
 Qed.
 
 Lemma steps_ok_flat : forall steps t, steps_ok t steps -> Forall run_rec (flat steps).
